@@ -132,6 +132,11 @@ class Handler(Contract):
         def mk(name):
             if name in self.flags:
                 v = self.flags[name]
+                if isinstance(v, str) and v.startswith("same:"):
+                    # the very object passed for another array parameter (np.array_equal(x, x))
+                    v = self._arrays[v[5:]]
+                    self._arrays[name] = v
+                    return v
                 if v == "array":
                     v = N.make_unyt_array(it, name)
                     self._arrays[name] = v
@@ -516,13 +521,21 @@ def _build():
         flagsets = [{}]
         for k, vs in sp["flags"].items():
             flagsets = [dict(f, **{k: v}) for f in flagsets for v in vs]
+        base_sets = list(flagsets)
+        if len(sp["arrays"]) >= 2 and not sp["flags"] and not sp["writes"] \
+                and hname not in UNDECIDED_BY_DESIGN and hname != "linalg_lstsq":
+            # the same object passed for the first two array parameters (an identity shortcut in a
+            # handler is only visible in this configuration)
+            flagsets = flagsets + [{sp["arrays"][1]: "same:" + sp["arrays"][0]}]
         for fl in flagsets:
             for with_out in (False, True):
                 if with_out and "out" not in ARGS.get(hname, []):
                     continue
+                if with_out and fl not in base_sets:
+                    continue
                 tag = npname + "".join("[%s=%s]" % kv for kv in sorted(fl.items(), key=str)) + (
                     "[out=]" if with_out else "")
-                cname = "H_" + hname + "".join("_%s_%s" % (k, v) for k, v in sorted(fl.items(), key=str)) \
+                cname = "H_" + hname + "".join("_%s_%s" % (k, str(v).replace(":", "_")) for k, v in sorted(fl.items(), key=str)) \
                     + ("_out" if with_out else "")
                 cls = type(cname, (Handler,), {
                     "name": "unyt._array_functions." + hname, "handler": hname, "numpy": npname,
